@@ -43,7 +43,8 @@ def isDigit (c : Char) : Bool := '0' ≤ c && c ≤ '9'
 def isAlpha (c : Char) : Bool := ('a' ≤ c && c ≤ 'z') || ('A' ≤ c && c ≤ 'Z')
 def isWord (c : Char) : Bool := isDigit c || isAlpha c || c == '_'
 def isHexD (c : Char) : Bool := isDigit c || ('a' ≤ c && c ≤ 'f') || ('A' ≤ c && c ≤ 'F')
-def isSym (c : Char) : Bool := isDigit c || isAlpha c || c == '@'
+/-- the class of SYMBOL_REGEX and of the operands of EXPRESSION_REGEX: what a label may be made of -/
+def isSym (c : Char) : Bool := isWord c || c == '@'
 def isSpace (c : Char) : Bool := c == ' ' || c == '\t' || c == '\n' || c == '\r' || c == '\x0b' || c == '\x0c'
 def apos : Char := Char.ofNat 39
 /-- the class of CHAR_REGEX: letters, digits, listed punctuation, and the range plus..slash -/
@@ -150,16 +151,16 @@ def numericOfStr (s : Str) (sizeHint : Option Nat) (mode : Mode) : R Value :=
 
 def opChar (c : Char) : Bool := c == '+' || c == '-' || c == '/' || c == '*'
 
-/-- EXPRESSION_REGEX: dollars* word+ , one operator, dollars* word+ to the end -/
+/-- EXPRESSION_REGEX: dollars* [word or at]+ , one operator, dollars* [word or at]+ to the end -/
 def splitExpr (s : Str) : Option (Str × Char × Str) :=
   let d1 := s.takeWhile (· == '$'); let r1 := s.dropWhile (· == '$')
-  let w1 := r1.takeWhile isWord; let r2 := r1.dropWhile isWord
+  let w1 := r1.takeWhile isSym; let r2 := r1.dropWhile isSym
   if w1 == [] then Option.none else
   match r2 with
   | op :: r3 =>
     if opChar op then
       let d2 := r3.takeWhile (· == '$'); let r4 := r3.dropWhile (· == '$')
-      if r4 != [] && r4.all isWord then some (d1 ++ w1, op, d2 ++ r4) else Option.none
+      if r4 != [] && r4.all isSym then some (d1 ++ w1, op, d2 ++ r4) else Option.none
     else Option.none
   | [] => Option.none
 
@@ -302,50 +303,62 @@ abbrev SymTab := List (Str × Value)
 
 def SymTab.get? (t : SymTab) (k : Str) : Option Value := (t.find? (·.1 == k)).map (·.2)
 
-/-- `Value.resolve(symbol_table)`; `error` = any Python exception (the callers wrap it) -/
-def Value.resolve (v : Value) (t : SymTab) : R Value :=
-  match v with
-  | .symbol name _ =>
-    match t.get? name with
-    | Option.none => .error .other                               -- ValueError: not in symbol table
-    | some s =>
-      if s.isAddress then (match s with | .address i _ => .ok (.address i .none) | _ => .error .other)
-      else if s.isNumeric then
-        match s with
-        | .numeric i _ _ ng => numericOfInt (if ng then -(i : Int) else i) Option.none .none    -- NumericValue(symbol.signed())
-        | _ => .error .other
-      else .error .other                                        -- ValueError: "does not have a value" (after the repair)
-  | .expr l r op mode _ =>
-    let look (x : Value) : R Value :=
-      match x with
-      | .symbol name _ => (match t.get? name with | some s => .ok s | Option.none => .error .other)
-      | x => .ok x
-    match look l, look r with
-    | .ok l', .ok r' =>
-      let m := if l'.isExtendedLike || r'.isExtendedLike then Mode.extended else Mode.direct
-      match l', r' with
-      | .numeric lm _ _ ln, .numeric rm _ _ rn =>
-        -- NumericValue("{}".format(left op right), mode=mode): the STRING constructor; operands are signed()
-        let li : Int := if ln then -(lm : Int) else lm
-        let ri : Int := if rn then -(rm : Int) else rm
-        let res : Option Int :=
-          if op == '+' then some (li + ri)
-          else if op == '-' then some (li - ri)
-          else if op == '*' then some (li * ri)
-          else if op == '/' then (if ri = 0 then Option.none else some (Int.tdiv li ri))      -- int(left / right)
-          else some 0
-        match res with
-        | Option.none => .error .other                           -- ZeroDivisionError
-        | some z =>
-          let s : Str := if z < 0 then '-' :: (toString z.natAbs).toList else (toString z.natAbs).toList
-          let m := if z > 255 && m == .direct then Mode.extended else m      -- two direct page values can combine to one that is not (fix A13)
-          match numericOfStr s Option.none m with
-          | .ok nv => .ok nv
-          | .error _ => .error .other
-      | _, _ =>
-        if l'.isAddress || r'.isAddress then .ok (.expr l' r' op mode true)
-        else .error .other                                       -- "unresolved expression"
-    | _, _ => .error .other
-  | v => .ok v
+/-- `Value.resolve(symbol_table)` with `Value.get_symbol`; `error` = any Python exception (the callers wrap it).
+`get_symbol` evaluates an EQU that was defined by an expression where it is used (fix 0f280be), so the recursion
+follows chains of such EQUs: every level costs one unit of fuel, and running out of fuel stands for Python's
+RecursionError (an `Exception`, wrapped like the others) on a definition cycle. -/
+def resolveF : Nat → Value → SymTab → R Value
+  | 0, _, _ => .error .other                                     -- RecursionError
+  | fuel + 1, v, t =>
+    let getSym (name : Str) : R Value :=
+      match t.get? name with
+      | Option.none => .error .other                             -- ValueError: not in symbol table
+      | some s => if s.isExpression then resolveF fuel s t else .ok s
+    match v with
+    | .symbol name _ =>
+      match getSym name with
+      | .error e => .error e
+      | .ok s =>
+        if s.isAddress then (match s with | .address i _ => .ok (.address i .none) | _ => .error .other)
+        else if s.isNumeric then
+          match s with
+          | .numeric i _ _ ng => numericOfInt (if ng then -(i : Int) else i) Option.none .none    -- NumericValue(symbol.signed())
+          | _ => .error .other
+        else .error .other                                        -- ValueError: "does not have a value" (after the repair)
+    | .expr l r op mode _ =>
+      let look (x : Value) : R Value :=
+        match x with
+        | .symbol name _ => getSym name
+        | x => .ok x
+      match look l, look r with
+      | .ok l', .ok r' =>
+        let m := if l'.isExtendedLike || r'.isExtendedLike then Mode.extended else Mode.direct
+        match l', r' with
+        | .numeric lm _ _ ln, .numeric rm _ _ rn =>
+          -- NumericValue("{}".format(left op right), mode=mode): the STRING constructor; operands are signed()
+          let li : Int := if ln then -(lm : Int) else lm
+          let ri : Int := if rn then -(rm : Int) else rm
+          let res : Option Int :=
+            if op == '+' then some (li + ri)
+            else if op == '-' then some (li - ri)
+            else if op == '*' then some (li * ri)
+            else if op == '/' then (if ri = 0 then Option.none else some (Int.tdiv li ri))      -- int(left / right)
+            else some 0
+          match res with
+          | Option.none => .error .other                           -- ZeroDivisionError
+          | some z =>
+            let s : Str := if z < 0 then '-' :: (toString z.natAbs).toList else (toString z.natAbs).toList
+            let m := if z > 255 && m == .direct then Mode.extended else m      -- two direct page values can combine to one that is not (fix A13)
+            match numericOfStr s Option.none m with
+            | .ok nv => .ok nv
+            | .error _ => .error .other
+        | _, _ =>
+          if l'.isAddress || r'.isAddress then .ok (.expr l' r' op mode true)
+          else .error .other                                       -- "unresolved expression"
+      | _, _ => .error .other
+    | v => .ok v
+
+/-- a chain of EQUs without a cycle is no longer than the table -/
+def Value.resolve (v : Value) (t : SymTab) : R Value := resolveF (t.length + 1) v t
 
 end CoCo.Asm
